@@ -475,6 +475,15 @@ def edits(root, sm):
             root.findall("abstracttype")[i].append(mk("section", type="t1", name="*", attribute="zz"))
         add("R11:section-inside-abstracttype", 1, f)
 
+    for label, attrs in (("neither-src-nor-package", {}), ("src-and-package", {"src": "x.xml", "package": "ZConfig.components.basic"}),
+                         ("src-with-file", {"src": "x.xml", "file": "component.xml"}),
+                         ("file-with-directory", {"package": "ZConfig.components.basic", "file": "sub/component.xml"}),
+                         ("file-without-package", {"file": "component.xml"}),
+                         ("empty-package", {"package": ""}), ("package-with-empty-part", {"package": "ZConfig..basic"})):
+        def f(root, attrs=attrs):
+            root.insert(0, mk("import", **attrs))
+        add("R9:import-%s" % label, 0, f)
+
     def f(root):
         root.append(mk("foo"))
     add("R11:unknown-element", 0, f)
